@@ -18,16 +18,28 @@
 #include "reflect.h"
 using namespace Vector::BLF;
 
+#include <atomic>
+#include <malloc.h>
 static size_t CAP = 268435456;
-void* operator new(size_t n) { if (n > CAP) throw std::bad_alloc(); void* p = malloc(n ? n : 1); if (!p) throw std::bad_alloc(); return p; }
-void* operator new[](size_t n) { if (n > CAP) throw std::bad_alloc(); void* p = malloc(n ? n : 1); if (!p) throw std::bad_alloc(); return p; }
-void operator delete(void* p) noexcept { free(p); }
-void operator delete[](void* p) noexcept { free(p); }
-void operator delete(void* p, size_t) noexcept { free(p); }
-void operator delete[](void* p, size_t) noexcept { free(p); }
+static std::atomic<long long> g_live(0), g_peak(0);
+static inline void* acct_new(size_t n) {
+    if (n > CAP) throw std::bad_alloc();
+    void* p = malloc(n ? n : 1); if (!p) throw std::bad_alloc();
+    long long l = g_live.fetch_add((long long)malloc_usable_size(p)) + (long long)malloc_usable_size(p);
+    long long pk = g_peak.load(); while (l > pk && !g_peak.compare_exchange_weak(pk, l)) {}
+    return p;
+}
+static inline void acct_del(void* p) { if (p) { g_live.fetch_sub((long long)malloc_usable_size(p)); free(p); } }
+void* operator new(size_t n) { return acct_new(n); }
+void* operator new[](size_t n) { return acct_new(n); }
+void operator delete(void* p) noexcept { acct_del(p); }
+void operator delete[](void* p) noexcept { acct_del(p); }
+void operator delete(void* p, size_t) noexcept { acct_del(p); }
+void operator delete[](void* p, size_t) noexcept { acct_del(p); }
 
 static int WATCHDOG_S = 10;
 static int PACE_US = 0;
+static int HEAP = 0;
 static std::string TMPD = "/var/tmp";
 static int hexv(char c) { if (c >= '0' && c <= '9') return c - '0'; if (c >= 'a' && c <= 'f') return c - 'a' + 10; if (c >= 'A' && c <= 'F') return c - 'A' + 10; return -1; }
 static std::vector<uint8_t> unhex(const std::string& s) { std::vector<uint8_t> o; if (s == "-") return o; for (size_t i = 0; i + 1 < s.size(); i += 2) o.push_back(uint8_t(hexv(s[i]) * 16 + hexv(s[i + 1]))); return o; }
@@ -56,19 +68,20 @@ static std::string do_readfile(std::istringstream& is) {
         try { f.open(path.c_str(), std::ios_base::in); } catch (Exception&) { unlink(path.c_str()); return "readfile outcome=openexc"; }
         if (!f.is_open()) { unlink(path.c_str()); return "readfile outcome=notopen"; }
         std::string objs; size_t n = 0;
+        long long heap0 = g_live; g_peak = (long long)g_live;
         while (true) {
             if (PACE_US > 0 && (n % 3) == 1) usleep(useconds_t(PACE_US));   // consumer pacing (native stress runs)
             ObjectHeaderBase* o = f.read();
             if (!o) break;
             std::string cn = class_of(o); const ClassReflect* c = find_class(cn);
-            objs += " | " + cn + " " + (c ? dump_obj(c, o) : std::string("?"));
+            if (!HEAP) objs += " | " + cn + " " + (c ? dump_obj(c, o) : std::string("?"));
             delete o; n++;
             if (n > 200000) { _exit(77); }   // unbounded object stream: reported as hang by the parent
         }
         bool good = f.good(), eof = f.eof();
         f.close();
         out = "readfile outcome=ended count=" + std::to_string(uint32_t(f.currentObjectCount)) + " usize=" + std::to_string(f.currentUncompressedFileSize) +
-              " n=" + std::to_string(n) + " stats " + dump_stats(f.fileStatistics) + objs;
+              " n=" + std::to_string(n) + (HEAP ? " peak=" + std::to_string((long long)g_peak - heap0) : std::string()) + " stats " + dump_stats(f.fileStatistics) + (HEAP ? std::string() : objs);
         if (good || !eof) out += " BADEOF";
     }
     unlink(path.c_str());
@@ -109,8 +122,66 @@ static std::string do_writefile(std::istringstream& is) {
     return "writefile out=" + to_hex(b.data(), b.size());
 }
 
+// heap experiment (C12): write `n` AppText objects of `payload` bytes with container size `cs`, read them back with a
+// consumer that stalls, report the peak live heap of each session
+static std::string do_heap(std::istringstream& is) {
+    long n = 0, payload = 0; unsigned cs = 4096; int level = 0; long stall_every = 0, stall_us = 0;
+    is >> n >> payload >> cs >> level >> stall_every >> stall_us;
+    std::string path = TMPD + "/vblf-m" + std::to_string(getpid()) + ".blf";
+    long long wpeak = 0, rpeak = 0; long got = 0;
+    {
+        long long h0 = g_live; g_peak = (long long)g_live;
+        File f; f.compressionLevel = level; f.setDefaultLogContainerSize(cs); f.open(path.c_str(), std::ios_base::out);
+        for (long i = 0; i < n; i++) { auto* a = new AppText; a->text = std::string(size_t(payload), char('a' + i % 26)); f.write(a); }
+        f.close(); wpeak = (long long)g_peak - h0;
+    }
+    {
+        long long h0 = g_live; g_peak = (long long)g_live;
+        File f; f.open(path.c_str(), std::ios_base::in);
+        while (true) { if (stall_every > 0 && got % stall_every == stall_every - 1) usleep(useconds_t(stall_us)); ObjectHeaderBase* o = f.read(); if (!o) break; delete o; got++; }
+        f.close(); rpeak = (long long)g_peak - h0;
+    }
+    unlink(path.c_str());
+    return "heap n=" + std::to_string(n) + " got=" + std::to_string(got) + " wpeak=" + std::to_string(wpeak) + " rpeak=" + std::to_string(rpeak);
+}
+
+#include <dirent.h>
+static int count_threads() { int n = 0; DIR* d = opendir("/proc/self/task"); if (!d) return -1; while (dirent* e = readdir(d)) if (e->d_name[0] != '.') n++; closedir(d); return n; }
+
+// API histories (C13): api <validfile-hex> <op> <op> ...   ops: om ou oi oo r w c d
+static std::string do_api(std::istringstream& is) {
+    std::string h; is >> h; std::vector<uint8_t> b = unhex(h);
+    std::string valid = TMPD + "/vblf-a" + std::to_string(getpid()) + ".blf";
+    std::string outp = TMPD + "/vblf-ao" + std::to_string(getpid()) + ".blf";
+    { std::ofstream f(valid, std::ios::binary); f.write(reinterpret_cast<const char*>(b.data()), std::streamsize(b.size())); }
+    std::string out; std::string op; out.reserve(1 << 16); op.reserve(64);
+    long long live0 = g_live; int threads0 = count_threads();
+    long appOwned = 0;
+    {
+        File* f = new File;
+        auto obs = [&](const char* tag, const std::string& extra) { out += std::string(out.empty() ? "" : " | ") + tag + extra + " open=" + (f->is_open() ? "1" : "0") + " good=" + (f->good() ? "1" : "0") + " eof=" + (f->eof() ? "1" : "0"); };
+        while (is >> op) {
+            if (op == "om") { try { f->open((TMPD + "/no-such-dir/missing.blf").c_str(), std::ios_base::in); obs("om", ""); } catch (Exception&) { obs("om", " exc"); } }
+            else if (op == "ou") { try { f->open((TMPD + "/no-such-dir/x/out.blf").c_str(), std::ios_base::out); obs("ou", ""); } catch (Exception&) { obs("ou", " exc"); } }
+            else if (op == "oi") { try { f->open(valid.c_str(), std::ios_base::in); obs("oi", ""); } catch (Exception&) { obs("oi", " exc"); } }
+            else if (op == "oo") { try { f->open(outp.c_str(), std::ios_base::out); obs("oo", ""); } catch (Exception&) { obs("oo", " exc"); } }
+            else if (op == "r") { ObjectHeaderBase* o = f->read(); if (o) { delete o; obs("r", " obj"); } else obs("r", " null"); }
+            else if (op == "w") { auto* a = new AppText; a->text = "history"; f->write(a); obs("w", ""); }
+            else if (op == "c") { f->close(); obs("c", ""); }
+            else if (op == "d") { delete f; f = nullptr; break; }
+        }
+        if (f) delete f;
+    }
+    unlink(valid.c_str()); unlink(outp.c_str());
+    long long leak = (long long)g_live - live0; int threads1 = count_threads();
+    (void)appOwned;
+    return "api " + out + " | end leak=" + std::to_string(leak) + " threads=" + std::to_string(threads1 - threads0);
+}
+
 static std::string handle(const std::string& line) {
     std::istringstream is(line); std::string cmd; is >> cmd;
+    if (cmd == "heap") return do_heap(is);
+    if (cmd == "api") return do_api(is);
     if (cmd == "readfile") return do_readfile(is);
     if (cmd == "writefile") return do_writefile(is);
     return "bad-request";
@@ -121,6 +192,7 @@ int main() {
     if (const char* e = getenv("VERIF_WATCHDOG_S")) WATCHDOG_S = atoi(e);
     if (const char* e = getenv("VERIF_TMPD")) TMPD = e;
     if (const char* e = getenv("VERIF_PACE_US")) PACE_US = atoi(e);
+    if (const char* e = getenv("VERIF_HEAP")) HEAP = atoi(e);
     std::ios::sync_with_stdio(false);
     std::string line;
     while (std::getline(std::cin, line)) {
